@@ -38,6 +38,8 @@ fixed(['C05', 'C15'], h('delete, replace and remove'), r"D5: delete/replace/remo
 fixed(['C15'], h('inserted or appended'), r"D8: inserted TexNode/str stored unwrapped: inner commands not found by find_all, .text missed inserted strings", 'regress/C15/d8_*.json')
 fixed(['C01', 'C02', 'C09'], h('looks only at'), r"D11: \begin{e}x\end{e}[a raised TypeError and \begin{align}\end{align}{\begin{itemize}\item\end{itemize}} raised AssertionError (peek of \end over-read the following groups)", 'regress/C01/d11_*.json')
 fixed(['C08', 'C07'], h('blanks inside the braces'), r"D14: \begin{ a }x\end{a} accepted and serialised without the blanks inside the name braces", 'regress/C08/d14_*.json')
+fixed(['C01', 'C02'], h('reaches items, groups'), r"D6: \item \begin{verbatim} $ \end{verbatim} failed (skip list not propagated into items, groups, arguments, math)", 'regress/C01/d6_*.json')
+fixed(['C08', 'C16'], h('named [tex]'), r"D16: \begin{[tex]}x\end{[tex]} serialised as 'x'", 'regress/C08/d16_*.json')
 EXTRA = os.path.join(HERE, 'tools', 'known_extra.json')
 if os.path.exists(EXTRA):
     for e in json.load(open(EXTRA)):
